@@ -146,6 +146,9 @@ func (h transactionsResourceHandler) ResolveFilter(_ common.ResourceQuery[any], 
 		}
 	case common.MetadataRegex.Match([]byte(property)):
 		match := common.MetadataRegex.FindAllStringSubmatch(property, 3)
+		if operator == queries.OperatorIn {
+			return filterMetadataIn(match[0][1], value)
+		}
 
 		return "metadata @> ?", []any{map[string]any{
 			match[0][1]: value,
